@@ -323,7 +323,7 @@ int femmcli::LuaHeatflowCommands::luaAddBoundaryProperty(lua_State *L)
     if(n>6) m->beta=lua_todouble(L,7);
 
     doc->lineproplist.push_back(std::move(m));
-    doc->updateLineMap();
+    doc->updateIndicesFromLabels();
     return 0;
 }
 
@@ -355,7 +355,7 @@ int femmcli::LuaHeatflowCommands::luaAddConductorProperty(lua_State *L)
 
 
     femmState->femmDocument()->circproplist.push_back(std::move(m));
-    femmState->femmDocument()->updateCircuitMap();
+    femmState->femmDocument()->updateIndicesFromLabels();
 
     return 0;
 }
@@ -394,7 +394,7 @@ int femmcli::LuaHeatflowCommands::luaAddMaterialProperty(lua_State *L)
     if(n>3) m->Kt = lua_todouble(L,5);
 
     femmState->femmDocument()->blockproplist.push_back(std::move(m));
-    femmState->femmDocument()->updateBlockMap();
+    femmState->femmDocument()->updateIndicesFromLabels();
     return 0;
 }
 
@@ -426,7 +426,7 @@ int femmcli::LuaHeatflowCommands::luaAddPointProperty(lua_State *L)
     if (n>2) m->qp = lua_todouble(L,3);
 
     doc->nodeproplist.push_back(std::move(m));
-    doc->updateNodeMap();
+    doc->updateIndicesFromLabels();
     return 0;
 }
 
@@ -922,7 +922,7 @@ int femmcli::LuaHeatflowCommands::luaModifyBoundaryProperty(lua_State *L)
     {
     case 0:
         m->BdryName = lua_tostring(L,3);
-        doc->updateLineMap();
+        doc->updateIndicesFromLabels();
         break;
     case 1:
         m->BdryFormat = (int)lua_todouble(L,3);
@@ -996,6 +996,7 @@ int femmcli::LuaHeatflowCommands::luaModifyConductorProperty(lua_State *L)
         if (!lua_isnil(L,3))
             newName = lua_tostring(L,3);
         prop->CircName = newName;
+        doc->updateIndicesFromLabels();
         break;
     }
     case 1:
@@ -1058,7 +1059,7 @@ int femmcli::LuaHeatflowCommands::luaModifyMaterialProperty(lua_State *L)
     {
     case 0:
         m->BlockName = lua_tostring(L,3);
-        doc->updateBlockMap();
+        doc->updateIndicesFromLabels();
         break;
     case 1:
         m->Kx = lua_todouble(L,3);
@@ -1120,6 +1121,7 @@ int femmcli::LuaHeatflowCommands::luaModifyPointProperty(lua_State *L)
     {
     case 0:
         p->PointName = lua_tostring(L,3);
+        doc->updateIndicesFromLabels();
         break;
     case 1:
         // field T in HDRAWLUA
